@@ -255,11 +255,7 @@ func C05(e *Env) {
 			if res.Oracle != nil {
 				wit["trace"] = res.Oracle.Trace
 			}
-			if res.Fail.Inconclusive {
-				run.Inconclusive(res.Fail.Error())
-			} else {
-				run.Violate(res.Fail.Rule, res.Fail.Feature, fmt.Sprintf("[%s] %s", t.name, res.Fail.Detail), wit)
-			}
+			judgeModelFail(e, res.Fail, s.reqs, res.FailAt, "", res.Fail.Feature, fmt.Sprintf("[%s] %s", t.name, res.Fail.Detail), wit)
 			return
 		}
 		for j, tr := range res.Oracle.Trace {
